@@ -27,6 +27,14 @@ a package constant as a default (NFFT=default_NFFT), a dict default that only fe
 accepted (all fail-closed, self-tested).  Comparators: coq/Model/LoopIRVec.v; generators: props/_loopir_vec.py; theorem for arma2psd:
 coq/Proofs/LoopIRArma2psd.v.
 
+T10: arma.arma_estimate (comparator coq/Model/LoopIRArma.v) and lpc.lpc (coq/Model/LoopIRLpc.v) are translated too; generators props/_loopir_arma.py.
+arma_estimate embeds CORRELATION, arcovar_marple and ma; `res = arcovar(Y.copy(), P)` (scipy lstsq) is an ORACLE call bound to a NAME: the number of
+values it returns is read from arcovar's source, `res` is a tuple name bound by calls of DIFFERENT lengths (5 and 2) and may be read only as
+res[<literal below the shortest length>].  lpc: numpy.fft.ifft -> [EIfft] (idft of Theory/Dft.v over the same hidden twiddle parameter),
+`from numpy import real`, tools.nextpow2 -> the primitive [ENextPow2] (accepted only while the text of nextpow2 is `res = ceil(log2(x)); return
+res.astype('int')` over numpy's ceil / log2; its argument is translated in integer arithmetic), 2**nextpow2(..) -> [EPow2], and `x.resize(N+1)` on the
+parameter the spec declares the function's own (`own_params`: the effect on the caller's array is not modelled).
+
 The translator is fail-closed: an `ast` node outside the recognised subset aborts the translation of that function
 (`Untranslatable`), which the tie reports through ctx.broken as "translation of <fn> failed: <node>".  Nothing is
 skipped silently; what is ignored is listed here: docstrings / bare string statements, `logging.<f>(...)` statements
@@ -89,6 +97,11 @@ SPECS = {
     'CORRELOGRAMPSD': dict(module='correlog', oracle_calls=('xcorr',)),     # the xcorr branch stays an oracle call
     # the 1-D path: the bodies of the `if x.ndim == 2:` tests are not translated ([SUnsupported]: entering one is the outcome OErr Unsupported)
     'speriodogram': dict(module='periodogram', unsupported_if=('x.ndim == 2',)),
+    # T10: arma_estimate with CORRELATION, arcovar_marple (P <= 4) and ma embedded; the scipy-lstsq solver arcovar (P > 4) stays an ORACLE call
+    'arma_estimate': dict(module='arma', oracle_calls=('arcovar',)),
+    # T10: lpc: fft / ifft over the hidden twiddle parameter, tools.nextpow2 as the primitive [ENextPow2], LEVINSON embedded; `x.resize(N+1)` updates the
+    # PARAMETER in place (visible to the caller: not modelled)
+    'lpc': dict(module='lpc', own_params=('x',)),
 }
 # oracle calls of a function when it is translated as a CALLEE (its hidden oracle parameters become hidden parameters of the caller)
 CALLEE_ORACLES = {('correlation', 'CORRELATION'): ('pylab_rms_flat',)}
@@ -264,7 +277,8 @@ class FnTranslator:
         self.local_imports = {}                                # name -> (module, function): `from .M import f` at the head of the function body
         self.tuple_vars = {}                                   # name -> slots of the values of the tuple a call returned (T6)
         self.np_names = set(); self.logging_names = set(); self.nodes = 0
-        self.fft_names = {}           # T7: local name -> 'fft' | 'rfft' (bound exactly once at module level by `from numpy.fft import ..`)
+        self.fft_names = {}           # T7: local name -> 'fft' | 'rfft' | (T10) 'ifft' (bound exactly once at module level by `from numpy.fft import ..`)
+        self.npfun_names = {}         # T10: local name -> 'real' (bound exactly once at module level by `from numpy import real`)
         self.window_names = set()     # T7: names bound exactly once at module level to the package's Window class
         self.local_modules = {}       # T7: name -> module: `from . import M [as m]` as a statement inside the function body
         for n in modtree.body:
@@ -277,8 +291,13 @@ class FnTranslator:
             if isinstance(n, ast.ImportFrom) and n.level == 0 and n.module == 'numpy.fft':
                 for a in n.names:
                     g = a.asname or a.name
-                    if a.name in ('fft', 'rfft') and len(name_bindings(modtree, g)) == 1:
+                    if a.name in ('fft', 'rfft', 'ifft') and len(name_bindings(modtree, g)) == 1:
                         self.fft_names[g] = a.name
+            if isinstance(n, ast.ImportFrom) and n.level == 0 and n.module == 'numpy':
+                for a in n.names:          # T10: `from numpy import real` (lpc.py): a name bound exactly once at module level to numpy.real
+                    g = a.asname or a.name
+                    if a.name in ('real',) and len(name_bindings(modtree, g)) == 1:
+                        self.npfun_names[g] = a.name
             if isinstance(n, ast.ImportFrom) and package_module_of(n) == 'window':
                 for a in n.names:
                     g = a.asname or a.name
@@ -366,6 +385,8 @@ class FnTranslator:
             if isinstance(n, ast.Assign) and isinstance(n.value, ast.Call) and isinstance(n.value.func, ast.Name) \
                     and n.value.func.id in self.crit_class and len(n.targets) == 1 and isinstance(n.targets[0], ast.Name):
                 self.crit_objs.add(n.targets[0].id)
+        self.tw_slot_needed = any(isinstance(n, ast.Call) and isinstance(n.func, ast.Name) and n.func.id in self.fft_names and n.func.id not in self.assigned
+                                  for s in kept for n in ast.walk(s))
         self.find_calls(kept)
         self.find_list_vars(fn)
         # names bound to a list display / comprehension somewhere: Python lists; `+`, `*`, `+=` on them concatenate / repeat, the IR's arrays do not
@@ -416,7 +437,12 @@ class FnTranslator:
             self.tw_slot = self.new_slot(TW_KEY); self.oracle_params.append(TW_KEY); defaults.append(None)
         self.params = params + self.oracle_params
         self.oracle_params_only = list(self.oracle_params)
-        self.check_aliasing(body, set(params))
+        # T10: `own_params` of a spec (lpc's x): the function updates this parameter in place (x.resize); the update is visible to the CALLER, which the
+        # tie does not model (a top-level program has no caller inside the IR); inside the function the parameter has no other name
+        own = set(spec.get('own_params', ()))
+        if own - set(params):
+            self.fail(fn, 'own_params of the spec are not parameters')
+        self.check_aliasing(body, set(params) - own)
         # body
         if 'skip' in spec:
             stm = self.block(kept, top=True)
@@ -554,12 +580,36 @@ class FnTranslator:
         els = t.elts if isinstance(t, (ast.Tuple, ast.List)) else ([t] if isinstance(t, ast.Name) else None)
         if els is None or not all(isinstance(e, ast.Name) for e in els) or c.func.id in self.assigned:
             self.fail(s, 'oracle call of unexpected shape')
-        if not all(isinstance(x, ast.Name) for x in c.args) or not all(k.arg is not None and isinstance(k.value, ast.Name) for k in c.keywords):
+        if not all(self.oracle_arg_ok(x) for x in c.args) or not all(k.arg is not None and isinstance(k.value, ast.Name) for k in c.keywords):
             self.fail(s, 'oracle call whose arguments are not plain names')
         b = name_bindings(self.modtree, c.func.id)
         if len(b) != 1 or b[0][0] != 'import' or package_module_of(b[0][1]) is None:
             self.fail(s, 'the oracle %s is not bound exactly once, by an import of a function of the package' % c.func.id)
+        if isinstance(t, ast.Name):
+            # T10: the number of values is the one the oracle function's source returns (1: one hidden parameter; n >= 2: `t` is a tuple name)
+            if getattr(s, '_oracle_arity', None) is None:
+                self.fail(s, 'oracle call bound to a name outside the translated statements')
+            return s._oracle_arity
         return len(els)
+
+    def oracle_fn_arity(self, s):
+        """T10: the number of values the oracle function of `name = f(..)` returns on every path, read from ITS source (the name must be bound exactly
+        once at module level by an import of a function of the package)"""
+        c = s.value
+        b = name_bindings(self.modtree, c.func.id)
+        if c.func.id in self.assigned or len(b) != 1 or b[0][0] != 'import' or package_module_of(b[0][1]) is None or self.loader is None:
+            self.fail(s, 'the oracle %s is not bound exactly once, by an import of a function of the package' % c.func.id)
+        M = package_module_of(b[0][1])
+        fndef = find_function(self.loader.tree(M, s), b[0][2].name, s, modname=M + '.py')
+        ar = return_arities(fndef)
+        if len(ar) != 1:
+            self.fail(s, 'the oracle %s does not return the same number of values on every path' % c.func.id)
+        return min(ar)
+
+    def oracle_arg_ok(self, x):
+        """an argument of an oracle call: a plain name, or (T10) `<name>.copy()` of a name (evaluated for its exceptions, see stmt)"""
+        return isinstance(x, ast.Name) or (isinstance(x, ast.Call) and isinstance(x.func, ast.Attribute) and x.func.attr == 'copy' and not x.args
+                                           and not x.keywords and isinstance(x.func.value, ast.Name))
 
     def resolve_callee(self, f, where):
         """(module, its tree, FunctionDef) if the call target `f` / `m.f` names a function of the package, resolved syntactically through the
@@ -634,6 +684,12 @@ class FnTranslator:
         rhs = {id(n.value) for n in allnodes if isinstance(n, ast.Assign) and len(n.targets) == 1}
         rhs |= {id(n.value) for s in stmts for n in ast.walk(s) if isinstance(n, ast.Expr)}      # T7: `f(..)` as a statement (errors.is_positive_integer(order))
         for c in cand:
+            if hasattr(c, '_primitive'):
+                delattr(c, '_primitive')
+            prim = self.primitive_callee(c)
+            if prim is not None:
+                c._primitive = prim           # T10: tools.nextpow2 -> [ENextPow2]: not embedded, translated where it occurs
+                continue
             r = self.resolve_callee(c.func, c)
             if r is None:
                 continue
@@ -659,13 +715,24 @@ class FnTranslator:
                     self.tuple_vars.setdefault(n.targets[0].id, set()).add(min(ar))
                 elif ar != {1}:
                     self.fail(n, 'the callee does not return the same number of values on every path')
+        # T10: `res = arcovar(Y.copy(), P)` for a function the spec declares an ORACLE call: the number of values it returns is read from its
+        # source (resolved through the imports); n >= 2 makes `res` a tuple name as well (arma_estimate binds `res` to the 5 results of
+        # arcovar_marple in one branch and to the 2 results of arcovar in the other, and reads res[0])
+        self.tuple_arities = {}
+        for n in allnodes:
+            if isinstance(n, ast.Assign) and len(n.targets) == 1 and isinstance(n.targets[0], ast.Name) and isinstance(n.value, ast.Call) \
+                    and isinstance(n.value.func, ast.Name) and n.value.func.id in self.oracle_call_fns:
+                ar = self.oracle_fn_arity(n)
+                n._oracle_arity = ar
+                if ar >= 2:
+                    self.tuple_vars.setdefault(n.targets[0].id, set()).add(ar)
         if not self.tuple_vars:
             return
         argnames = {x.arg for x in fn.args.args} | set(self.spec.get('params', ()))
         ok_nodes = set()
         for n in allnodes:
-            if isinstance(n, ast.Assign) and len(n.targets) == 1 and isinstance(n.targets[0], ast.Name) and hasattr(n.value, '_callee') \
-                    and n.targets[0].id in self.tuple_vars:
+            if isinstance(n, ast.Assign) and len(n.targets) == 1 and isinstance(n.targets[0], ast.Name) \
+                    and (hasattr(n.value, '_callee') or getattr(n, '_oracle_arity', 0) >= 2) and n.targets[0].id in self.tuple_vars:
                 ok_nodes.add(id(n.targets[0]))
             if isinstance(n, ast.Subscript) and isinstance(n.value, ast.Name) and n.value.id in self.tuple_vars and isinstance(n.ctx, ast.Load):
                 i = n.slice
@@ -678,14 +745,19 @@ class FnTranslator:
                 ar = self.tuple_vars[n.value.id]
                 if len(ar) == 1 and -min(ar) <= v < min(ar):
                     n._tuple_index = v % min(ar); ok_nodes.add(id(n.value))
+                elif len(ar) > 1 and 0 <= v < min(ar):
+                    # T10: tuples of DIFFERENT lengths (one per branch): only a non-negative index below the shortest length denotes the same
+                    # component, and exists, whichever call bound the name
+                    n._tuple_index = v; ok_nodes.add(id(n.value))
         for n in allnodes:
             if isinstance(n, ast.Name) and n.id in self.tuple_vars:
-                if n.id in argnames or len(self.tuple_vars[n.id]) != 1:
-                    self.fail(n, 'a name bound to the tuple a call returns is a parameter / bound to tuples of different lengths')
+                if n.id in argnames:
+                    self.fail(n, 'a name bound to the tuple a call returns is a parameter')
                 if id(n) not in ok_nodes:
                     self.fail(n, 'a name bound to the tuple a call returns may only be bound by such calls and read as name[<int literal>] (%s)' % n.id)
         for nm in sorted(self.tuple_vars):
-            self.tuple_vars[nm] = min(self.tuple_vars[nm])
+            self.tuple_arities[nm] = set(self.tuple_vars[nm])
+            self.tuple_vars[nm] = max(self.tuple_vars[nm])         # the number of slots
 
     def find_list_vars(self, fn):
         """Python lists that are appended to (`pbv = []` ... `pbv.append(pb)` ... `return ..., pbv`).  A name on which
@@ -825,7 +897,7 @@ class FnTranslator:
     # ---------------------------------------------------------------- aliasing (arrays have value semantics in the IR)
     FRESH_CALLS = {'zeros', 'array', 'insert', 'concatenate', 'copy', 'astype', 'float', 'len', 'abs', 'max', 'min', 'sum',
                    'dot', 'conjugate', 'conj', 'isrealobj',
-                   'fft', 'rfft', 'fftshift', 'mean'}
+                   'fft', 'rfft', 'fftshift', 'mean', 'ifft'}
 
     def is_fresh(self, e):
         if isinstance(e, (ast.Constant, ast.BinOp, ast.UnaryOp, ast.Compare, ast.BoolOp, ast.ListComp, ast.List, ast.Tuple)):
@@ -833,6 +905,8 @@ class FnTranslator:
         if isinstance(e, ast.Subscript):
             if isinstance(e.slice, ast.Tuple):
                 return not any(isinstance(x, ast.Slice) for x in e.slice.elts)      # U[i, a:b] is a view, U[i, j] a scalar
+            if isinstance(e.value, ast.Name) and e.value.id in getattr(self, 'tuple_vars', {}):
+                return False           # T10: res[0] of a tuple name is the ARRAY the callee returned (it may be a view of the callee's argument)
             return not isinstance(e.slice, ast.Slice)
         if isinstance(e, ast.Call):
             f = e.func
@@ -880,6 +954,13 @@ class FnTranslator:
                             shared.discard(t.id)           # T7: the callee returns a fresh array on every path (tools.twosided_2_centerdc: fftshift)
                         elif self.is_real_view_of(s.value, t.id) and t.id not in shared:
                             pass                           # T7: `x = numpy.real(x)` for an unshared x: the view is the only way left to reach the array
+                        elif isinstance(s.value, ast.Call) and (hasattr(s.value, '_callee') or hasattr(s, '_oracle_slots')):
+                            # T10: the results of a call may be (views of) its array arguments: they share with the arguments that are not fresh
+                            # (`res = arcovar_marple(Y.copy(), P)` leaves Y unshared), exactly as for a tuple target below
+                            shared.add(t.id)
+                            for a in list(s.value.args) + [k.value for k in s.value.keywords]:
+                                if not self.is_fresh(a):
+                                    shared |= names(a)
                         else:
                             shared |= names(s.value) | {t.id}
                     elif isinstance(t, ast.Subscript) and isinstance(t.value, ast.Name):
@@ -995,10 +1076,19 @@ class FnTranslator:
             if hasattr(s, '_oracle_slots'):
                 # T7: `a, b = xcorr(..)`: the results are hidden parameters
                 els = t.elts if isinstance(t, (ast.Tuple, ast.List)) else [t]
+                # T10: arguments that are not plain names (`Y.copy()`) are evaluated, left to right, for their exceptions; the values are discarded
+                pre = ['SAssign %d %s' % (self.new_slot('%s@arg#%d' % (s.value.func.id, len(self.slots))), self.expr(a))
+                       for a in s.value.args if not isinstance(a, ast.Name)]
+                if isinstance(t, ast.Name) and t.id in self.tuple_vars:
+                    # T10: `res = arcovar(..)`, arcovar returning n >= 2 values: the n hidden parameters go to the first n slots of the tuple name
+                    if t.id in self.matrix_vars or t.id in self.crit_objs or t.id in self.list_vars or getattr(s, '_oracle_arity', 0) != len(s._oracle_slots) \
+                            or len(s._oracle_slots) not in self.tuple_arities[t.id]:
+                        self.fail(s, 'oracle result bound to a 2-D array / Criteria / list name')
+                    return self.seq(pre + ['SAssign %d (EVar %d)' % (x, h) for x, h in zip(self.tuple_slots(t.id), s._oracle_slots)])
                 for el in els:
                     if el.id in self.matrix_vars or el.id in self.crit_objs or el.id in self.list_vars or el.id in self.tuple_vars:
                         self.fail(s, 'oracle result bound to a 2-D array / Criteria / list / tuple name')
-                return self.seq(['SAssign %d (EVar %d)' % (self.slot_of_local(el.id), h) for el, h in zip(els, s._oracle_slots)])
+                return self.seq(pre + ['SAssign %d (EVar %d)' % (self.slot_of_local(el.id), h) for el, h in zip(els, s._oracle_slots)])
             if isinstance(t, ast.Name) and isinstance(s.value, ast.Call) and hasattr(s.value, '_oracle_slot') and isinstance(s.value.func, ast.Name) \
                     and s.value.func.id in self.window_names:
                 if t.id in self.matrix_vars or t.id in self.crit_objs or t.id in self.list_vars or t.id in self.tuple_vars:
@@ -1212,22 +1302,27 @@ class FnTranslator:
         if t.id in self.matrix_vars or t.id in self.crit_objs or t.id in self.list_vars:
             self.fail(s, 'call result bound to a 2-D array / Criteria / list name')
         if t.id in self.tuple_vars:
-            n = self.tuple_vars[t.id]
-            if prog.arities != {n}:
-                self.fail(s, 'the callee does not return %d values on every path' % n)
+            if len(prog.arities) != 1 or min(prog.arities) not in self.tuple_arities[t.id]:
+                self.fail(s, 'the callee does not return %s values on every path' % sorted(self.tuple_arities[t.id]))
             for i in prog.matrix_rets:
                 if any(isinstance(m, ast.Subscript) and isinstance(m.value, ast.Name) and m.value.id == t.id and getattr(m, '_tuple_index', None) == i
                        for m in ast.walk(self.fn)):
                     self.fail(s, 'a 2-D array returned by the callee is read')
-            slots = [self.lookup('%s@%d' % (t.id, i)) for i in range(n)]
-            if slots[0] is None:
-                slots = []
-                for i in range(n):
-                    x = self.new_slot('%s@%d' % (t.id, i)); self.scopes[0]['%s@%d' % (t.id, i)] = x; slots.append(x)
+            slots = self.tuple_slots(t.id)[:min(prog.arities)]
             return 'SCall [%s] %d %s %d\n(%s)\n[%s]' % (('; '.join('%d%%nat' % x for x in slots),) + parts)
         if prog.arities != {1} or prog.matrix_rets:
             self.fail(s, 'the callee does not return exactly one (1-D / scalar) value on every path')
         return 'SCall1 %d %d %s %d\n(%s)\n[%s]' % ((self.slot_of_local(t.id),) + parts)
+
+    def tuple_slots(self, name):
+        """the slots name@0 .. name@n-1 of a tuple name (n = the longest tuple it is bound to), created at the first binding statement"""
+        n = self.tuple_vars[name]
+        slots = [self.lookup('%s@%d' % (name, i)) for i in range(n)]
+        if slots[0] is None:
+            slots = []
+            for i in range(n):
+                x = self.new_slot('%s@%d' % (name, i)); self.scopes[0]['%s@%d' % (name, i)] = x; slots.append(x)
+        return slots
 
     def is_int_promotion(self, s):
         """exactly `if <x>.dtype.kind in '<subset of iub>': <x> = <x>.astype(float)` for a local array <x> (no else):
@@ -1341,6 +1436,9 @@ class FnTranslator:
             return '(EVar %d)' % s
         if isinstance(e, ast.BinOp):
             if isinstance(e.op, ast.Pow):
+                if isinstance(e.left, ast.Constant) and type(e.left.value) is int and e.left.value == 2 and not self.is_two(e.right) \
+                        and self.tw_slot is not None and isinstance(e.right, ast.Call) and hasattr(e.right, '_primitive'):
+                    return '(EPow2 %s)' % self.expr(e.right)          # T10: 2**nextpow2(..) (an int power of two: the fft length of lpc)
                 if not self.is_two(e.right):
                     self.fail(e, 'power other than 2')
                 b = e.left
@@ -1447,6 +1545,53 @@ class FnTranslator:
             return self.call(e)
         self.fail(e, 'expression')
 
+    def int_expr(self, e):
+        """T10: the argument of nextpow2, read in INTEGER arithmetic: int literals, float literals with an integer value (`2.`), len(<name>),
+        names, + - * of such (the float the code computes is that integer exactly while it is < 2^52)"""
+        self.nodes += 1
+        if isinstance(e, ast.Constant) and type(e.value) in (int, float) and float(e.value) == int(e.value) and abs(e.value) < 1 << 30:
+            return '(EInt %s)' % zlit(int(e.value))
+        if isinstance(e, ast.Name):
+            return self.expr(e)
+        if isinstance(e, ast.Call) and isinstance(e.func, ast.Name) and e.func.id == 'len' and 'len' not in self.assigned and len(e.args) == 1 \
+                and not e.keywords and isinstance(e.args[0], ast.Name):
+            return '(ELen %s)' % self.expr(e.args[0])
+        if isinstance(e, ast.BinOp) and isinstance(e.op, (ast.Add, ast.Sub, ast.Mult)):
+            return '(EBin %s %s %s)' % (BINOPS[type(e.op)], self.int_expr(e.left), self.int_expr(e.right))
+        self.fail(e, 'argument of nextpow2 that is not integer arithmetic over len() / names / integer-valued literals')
+
+    PRIMITIVE_CALLEES = {('tools', 'nextpow2'): ('ENextPow2', ['x'], ["res = ceil(log2(x))", "return res.astype('int')"], ('ceil', 'log2'))}
+
+    def primitive_callee(self, c):
+        """T10: a call of a package function that is an IR PRIMITIVE (tools.nextpow2 -> [ENextPow2]): accepted only while the function's text
+        is, verbatim, the one the primitive stands for, and the numpy functions it calls are bound exactly once by `from numpy import ..`"""
+        if not (isinstance(c.func, ast.Name) and self.loader is not None and self.tw_slot_needed):
+            return None
+        name = c.func.id
+        argnames = {x.arg for x in self.fn.args.args} | set(self.spec.get('params', ()))
+        if name in self.assigned or name in argnames or name in self.local_imports:
+            return None
+        b = name_bindings(self.modtree, name)
+        if len(b) != 1 or b[0][0] != 'import' or package_module_of(b[0][1]) is None:
+            return None
+        M = package_module_of(b[0][1]); orig = b[0][2].name
+        if (M, orig) not in self.PRIMITIVE_CALLEES:
+            return None
+        prim, params, text, npnames = self.PRIMITIVE_CALLEES[(M, orig)]
+        tree = self.loader.tree(M, c)
+        fndef = find_function(tree, orig, c, modname=M + '.py')
+        body = [x for x in fndef.body if not (isinstance(x, ast.Expr) and isinstance(x.value, ast.Constant) and isinstance(x.value.value, str))]
+        a = fndef.args
+        if fndef.decorator_list or a.vararg or a.kwarg or a.kwonlyargs or a.posonlyargs or a.defaults or [x.arg for x in a.args] != params \
+                or [ast.unparse(x) for x in body] != text:
+            self.fail(c, 'the text of %s.%s is not the one the IR primitive %s stands for' % (M, orig, prim))
+        for g in npnames:
+            bb = name_bindings(tree, g)
+            if len(bb) != 1 or bb[0][0] != 'import' or not isinstance(bb[0][1], ast.ImportFrom) or bb[0][1].level != 0 or bb[0][1].module != 'numpy' \
+                    or bb[0][2].name != g or bb[0][2].asname not in (None, g):
+                self.fail(c, '%s is not bound exactly once by `from numpy import %s` in %s.py' % (g, g, M))
+        return prim
+
     def matrix_index(self, e):
         """U[i, j], U[i, lo:hi:step], U[lo:hi:step, j] on a matrix name"""
         if not (isinstance(e.value, ast.Name) and e.value.id in self.matrix_vars and len(e.slice.elts) == 2 and isinstance(e.ctx, ast.Load)):
@@ -1516,7 +1661,14 @@ class FnTranslator:
                         self.fail(e, 'fft along an axis other than 0 / -1')
                 a = self.expr(e.args[0])
                 n = 'None' if len(e.args) == 1 else '(Some %s)' % self.expr(e.args[1])
-                return '(%s %s %s (EVar %d))' % ('EFft' if self.fft_names[f.id] == 'fft' else 'ERfft', a, n, self.tw_slot)
+                return '(%s %s %s (EVar %d))' % ({'fft': 'EFft', 'rfft': 'ERfft', 'ifft': 'EIfft'}[self.fft_names[f.id]], a, n, self.tw_slot)
+            if f.id in self.npfun_names and self.npfun_names[f.id] == 'real' and len(e.args) == 1 and not kws and self.lookup(f.id) is None:
+                return '(EReal %s)' % self.expr(e.args[0])            # T10: real(z) for `from numpy import real`
+            if hasattr(e, '_primitive'):
+                # T10: tools.nextpow2(<integer-valued arithmetic>) (text of nextpow2 verified in find_calls)
+                if len(e.args) != 1 or kws or isinstance(e.args[0], ast.Starred):
+                    self.fail(e, 'nextpow2 with unexpected arguments')
+                return '(%s %s)' % (e._primitive, self.int_expr(e.args[0]))
             if kws:
                 self.fail(e, 'keyword arguments')
             n = len(e.args)
@@ -1883,6 +2035,7 @@ SELFTEST3_BAD = [           # (what, module, old, new)
     ('callee returns different numbers of values', 'modh', "    return b, U, e", "    if flag:\n        return b\n    return b, U, e"),
     ('one-value call of a callee that returns a 2-D array', 'modh', "    b = a[0:n]\n    return b", "    b = numpy.zeros((2, 2))\n    return b"),
     ('store through a call result that may alias the argument (other module)', 'modf', "    t = mh.h(b, e)", "    b[0] = 1\n    t = mh.h(b, e)"),
+    ('store through a component of a tuple name (T10)', 'modf', "    d = modh.h1(t[0])", "    d = t[0]\n    d[0] = 1\n    d = modh.h1(t[0])"),
     ('store through a one-value call result', 'modf', "    q = hh(d, 1)", "    q = hh(d, 1)\n    q[0] = 1"),
     ('unknown exception class raised', 'modf', "raise NotImplementedError", "raise KeyError"),
     ('oracle of the callee called in an unexpected shape', 'correlation', "pylab_rms_flat(x)", "pylab_rms_flat(x, 1)"),
@@ -2027,6 +2180,129 @@ SELFTEST4_BAD = [           # (what, module, old, new)
 ]
 
 
+# T10 (arma_estimate): a name bound to the tuples TWO calls return (an embedded callee returning 3 values, an ORACLE call returning 2), read as
+# res[0]; oracle arguments of the form <name>.copy(); the aliasing of call results bound to a name
+SELFTEST5_SPEC = dict(module='moda', oracle_calls=('lsq',))
+SELFTEST5_OK = {
+    '__init__': """
+from .solv import *
+from .moda import *
+""",
+    'solv': """
+import numpy
+__all__ = ['fast', 'lsq']
+def fast(y, p):
+    a = numpy.zeros(len(y), dtype=complex)
+    e = 1.
+    b = numpy.zeros(len(y), dtype=complex)
+    return a, e, b
+def lsq(y, p):
+    return y, 0.
+""",
+    'moda': """
+import numpy as np
+from .solv import fast, lsq
+__all__ = ['f']
+def f(x, p):
+    y = np.zeros(len(x), dtype=complex)
+    y.resize(4, refcheck=False)
+    if p <= 2:
+        res = fast(y.copy(), p)
+        a = res[0][0:p]
+    else:
+        res = lsq(y.copy(), p)
+        a = res[0]
+    y.resize(len(x) - p, refcheck=False)
+    return a, y
+""",
+}
+SELFTEST5_BAD = [           # (what, module, old, new)
+    ('tuple name of mixed lengths indexed at the shortest length', 'moda', "        a = res[0]\n", "        a = res[2]\n"),
+    ('tuple name of mixed lengths indexed from the end', 'moda', "res[0][0:p]", "res[-3][0:p]"),
+    ('tuple name of mixed lengths used as a value', 'moda', "        a = res[0]\n", "        a = res\n"),
+    ('oracle call with an arithmetic argument', 'moda', "lsq(y.copy(), p)", "lsq(y.copy() * 2, p)"),
+    ('oracle call with a slice view as argument', 'moda', "lsq(y.copy(), p)", "lsq(y[0:2], p)"),
+    ('oracle call with copy(order)', 'moda', "lsq(y.copy(), p)", "lsq(y.copy('C'), p)"),
+    ('oracle call with a keyword expression', 'moda', "lsq(y.copy(), p)", "lsq(y.copy(), p=p + 1)"),
+    ('oracle bound to a name returns different numbers of values', 'solv', "    return y, 0.", "    if p:\n        return y\n    return y, 0."),
+    ('oracle bound to a tuple name returns one value', 'solv', "    return y, 0.", "    return y"),
+    ('oracle bound to a name is not a function of the package', 'moda', "from .solv import fast, lsq", "from .solv import fast\nfrom os.path import join as lsq"),
+    ('oracle bound to a name is rebound at module level', 'moda', "from .solv import fast, lsq", "from .solv import fast, lsq\nlsq = len"),
+    ('oracle bound to a name is defined twice', 'solv', "def lsq(y, p):", "def lsq(y):\n    return y, 1.\ndef lsq(y, p):"),
+    ('oracle function the module does not define', 'solv', "def lsq(y, p):", "def lsq2(y, p):"),
+    ('resize after the array itself was handed to a callee bound to a name', 'moda', "res = fast(y.copy(), p)", "res = fast(y, p)"),
+    ('resize after the array itself was handed to an oracle bound to a name', 'moda', "res = lsq(y.copy(), p)", "res = lsq(y, p)"),
+    ('store through a component of a tuple name', 'moda', "        a = res[0]\n", "        a = res[0]\n        a[0] = 1\n"),
+    ('in-place update of a component of a tuple name', 'moda', "        a = res[0]\n", "        a = res[0]\n        a *= 2\n"),
+    ('oracle result bound to a name that is also a list', 'moda', "        a = res[0]\n", "        a = res[0]\n        res.append(1)\n"),
+    ('tuple name rebound to an array', 'moda', "        a = res[0]\n", "        a = res[0]\n        res = y\n"),
+]
+
+
+# T10 (lpc): ifft, `from numpy import real`, tools.nextpow2 as an IR primitive (its text is verified), 2**nextpow2(..), in-place resize of a parameter the
+# spec declares the function's own
+SELFTEST6_SPEC = dict(module='modl', own_params=('x',))
+SELFTEST6_OK = {
+    '__init__': """
+from .tools import *
+from .modl import *
+""",
+    'tools': """
+import numpy as np
+from numpy import ceil, log2
+__all__ = ['nextpow2']
+def nextpow2(x):
+    \"\"\"doc\"\"\"
+    res = ceil(log2(x))
+    return res.astype('int')
+""",
+    'modl': """
+from numpy.fft import fft, ifft
+from .tools import nextpow2
+from numpy import real
+__all__ = ['f']
+def f(x, y, N=None):
+    m = len(x)
+    if N is not None:
+        x.resize(N+1)
+    X = fft(x, 2**nextpow2(2.*len(x)-1))
+    R = real(ifft(abs(X)**2))
+    R = R/(m-1.)
+    return R, y
+""",
+}
+SELFTEST6_BAD = [           # (what, module, old, new)
+    ('nextpow2 with another text', 'tools', "res = ceil(log2(x))", "res = ceil(log2(x)) + 1"),
+    ('nextpow2 with a second statement', 'tools', "    res = ceil(log2(x))", "    x = abs(x)\n    res = ceil(log2(x))"),
+    ('nextpow2 with a default argument', 'tools', "def nextpow2(x):", "def nextpow2(x=1):"),
+    ('nextpow2 decorated', 'tools', "def nextpow2(x):", "@staticmethod\ndef nextpow2(x):"),
+    ('nextpow2 over a rebound ceil', 'tools', "from numpy import ceil, log2", "from numpy import ceil, log2\nceil = abs"),
+    ('nextpow2 over math.log2', 'tools', "from numpy import ceil, log2", "from numpy import ceil\nfrom math import log2"),
+    ('nextpow2 over a renamed numpy function', 'tools', "from numpy import ceil, log2", "from numpy import ceil, log10 as log2"),
+    ('nextpow2 defined twice', 'tools', "def nextpow2(x):", "def nextpow2(x, y):\n    return x\ndef nextpow2(x):"),
+    ('nextpow2 rebound in the calling module', 'modl', "from .tools import nextpow2", "from .tools import nextpow2\nnextpow2 = len"),
+    ('nextpow2 of a non-integer literal', 'modl', "nextpow2(2.*len(x)-1)", "nextpow2(2.5*len(x)-1)"),
+    ('nextpow2 of a quotient', 'modl', "nextpow2(2.*len(x)-1)", "nextpow2(len(x)/2)"),
+    ('nextpow2 of len of an expression', 'modl', "nextpow2(2.*len(x)-1)", "nextpow2(2.*len(x[1:])-1)"),
+    ('nextpow2 with two arguments', 'modl', "nextpow2(2.*len(x)-1)", "nextpow2(2.*len(x)-1, 2)"),
+    ('power of three', 'modl', "2**nextpow2(", "3**nextpow2("),
+    ('power of two of a name', 'modl', "2**nextpow2(2.*len(x)-1)", "2**m"),
+    ('power of two of an expression over nextpow2', 'modl', "2**nextpow2(2.*len(x)-1)", "2**(nextpow2(2.*len(x)-1) + 1)"),
+    ('float base', 'modl', "2**nextpow2(", "2.**nextpow2("),
+    ('real rebound', 'modl', "from numpy import real", "from numpy import real\nreal = abs"),
+    ('another numpy function under the name real', 'modl', "from numpy import real", "from numpy import imag as real"),
+    ('real imported from elsewhere', 'modl', "from numpy import real", "from cmath import phase as real"),
+    ('real with two arguments', 'modl', "real(ifft(abs(X)**2))", "real(ifft(abs(X)**2), 1)"),
+    ('ifft with a norm keyword', 'modl', "ifft(abs(X)**2)", "ifft(abs(X)**2, norm='forward')"),
+    ('ifft rebound', 'modl', "from numpy.fft import fft, ifft", "from numpy.fft import fft, ifft\nifft = fft"),
+    ('irfft', 'modl', "ifft(abs(X)**2)", "irfft(abs(X)**2)"),
+    ('resize of a parameter that is not the function\'s own', 'modl', "x.resize(N+1)", "y.resize(N+1)"),
+    ('resize of the own parameter after it got a second name', 'modl', "        x.resize(N+1)", "        z = x\n        x.resize(N+1)"),
+    ('resize of the own parameter through a view', 'modl', "        x.resize(N+1)", "        z = x[1:]\n        z.resize(N+1)"),
+    ('resize to a shape', 'modl', "x.resize(N+1)", "x.resize((N+1, 1))"),
+]
+
+
 def translator_selftest():
     """the names of the self-test edits that the translator wrongly accepts (must be empty), or a failure of the base case"""
     spec = dict(module='selftest')
@@ -2046,7 +2322,21 @@ def translator_selftest():
         ld = Loader(srcs, only=True)
         tree = ld.tree('modk')
         return FnTranslator(tree, find_function(tree, 'f'), SELFTEST4_SPEC, 'f', modname='modk', loader=ld).translate()
+    def tr5(srcs):
+        ld = Loader(srcs, only=True)
+        tree = ld.tree('moda')
+        return FnTranslator(tree, find_function(tree, 'f'), SELFTEST5_SPEC, 'f', modname='moda', loader=ld).translate()
+    def tr6(srcs):
+        ld = Loader(srcs, only=True)
+        tree = ld.tree('modl')
+        return FnTranslator(tree, find_function(tree, 'f'), SELFTEST6_SPEC, 'f', modname='modl', loader=ld).translate()
     try:
+        p6 = tr6(SELFTEST6_OK)
+        if p6.oracle_params != [TW_KEY] or any(p6.body.count(k) != c for k, c in (('EFft ', 1), ('EIfft ', 1), ('ENextPow2 ', 1), ('EPow2 ', 1), ('EReal ', 1), ('SResize ', 1))):
+            return ['base case 6: unexpected translation']
+        p5 = tr5(SELFTEST5_OK)
+        if len(p5.oracle_params) != 2 or p5.body.count('SCall [') != 1 or p5.body.count('SResize ') != 2 or p5.body.count('ECopy ') != 2:
+            return ['base case 5: unexpected translation']
         tr(SELFTEST_OK)
         tr2(SELFTEST2_OK)
         p3 = tr3(SELFTEST3_OK)
@@ -2073,6 +2363,24 @@ def translator_selftest():
         assert old in SELFTEST4_OK[mod], what
         try:
             tr4(dict(SELFTEST4_OK, **{mod: SELFTEST4_OK[mod].replace(old, new, 1)}))
+            bad.append(what)
+        except Untranslatable:
+            pass
+        except SyntaxError as e:     # pragma: no cover
+            bad.append('%s (self-test edit does not parse: %s)' % (what, e))
+    for what, mod, old, new in SELFTEST6_BAD:
+        assert old in SELFTEST6_OK[mod], what
+        try:
+            tr6(dict(SELFTEST6_OK, **{mod: SELFTEST6_OK[mod].replace(old, new, 1)}))
+            bad.append(what)
+        except Untranslatable:
+            pass
+        except SyntaxError as e:     # pragma: no cover
+            bad.append('%s (self-test edit does not parse: %s)' % (what, e))
+    for what, mod, old, new in SELFTEST5_BAD:
+        assert old in SELFTEST5_OK[mod], what
+        try:
+            tr5(dict(SELFTEST5_OK, **{mod: SELFTEST5_OK[mod].replace(old, new, 1)}))
             bad.append(what)
         except Untranslatable:
             pass
@@ -3005,6 +3313,15 @@ EXTRA_MODULES = {'arcovar_marple': 'Spectrum.Model.LoopIRMarple', 'modcovar_marp
                  'rlevinson': 'Spectrum.Model.LoopIRRlev'}
 EXTRA_MODULES.update({nm: 'Spectrum.Model.LoopIRVec' for nm in ('arma2psd', 'minvar', 'CORRELOGRAMPSD', 'speriodogram')})
 EXTRA_MODULES.update({nm: 'Spectrum.Model.LoopIRWrap' for nm in ('aryule', 'ma', 'ac2poly', 'ac2rc', 'poly2ac', 'poly2rc', 'ar2rc', 'rc2poly', 'rc2ac')})
+# T10: arma_estimate (comparator coq/Model/LoopIRArma.v, generator props/_loopir_arma.py)
+from props import _loopir_arma as _arma       # noqa: E402
+GENERATORS['arma_estimate'] = _arma.gen_arma_estimate
+EXACT_BUDGET['arma_estimate'] = (38, 260)
+EXTRA_MODULES['arma_estimate'] = 'Spectrum.Model.LoopIRArma'
+VEC_GENERATORS['lpc'] = _arma.gen_lpc
+EXACT_BUDGET['lpc'] = (40, 200); FLOAT_BUDGET['lpc'] = (60, 400)
+EXTRA_MODULES['lpc'] = 'Spectrum.Model.LoopIRLpc'
+EXACT_SHARD = {'arma_estimate': (1, 4)}       # cases per file of the exact comparison (default 24 / 100): these cases take 1..20 s each
 
 # ---------------------------------------------------------------- LEVINSON: translation + theorem
 LEV_PROOF = 'Proofs/LoopIRLevinson.v'
@@ -3865,7 +4182,10 @@ TRUSTED_LINE = ("loop-IR tie: the translator tools/props/_loopir.py (Python ast 
                 "translated as well: numpy.fft.fft / rfft are the DFT specification of Theory/Dft.v over a hidden twiddle parameter (exact runs with tw1/tw2/tw4, binary64 runs with "
                 "a harness table), Window samples / numpy.pi / xcorr / pylab_rms_flat are oracle inputs; T8: `run program = model` is a theorem also for minvar (whole function, no side condition), "
                 "the 1-D speriodogram (window of the data's length, non-integer flags) and CORRELOGRAMPSD (both correlation back ends on the comparator's domain); T9: rlevinson for ALL orders "
-                "(every input; supersedes the order-1 statement above) and, by composition, poly2ac, poly2rc, rc2ac")
+                "(every input; supersedes the order-1 statement above) and, by composition, poly2ac, poly2rc, rc2ac; T10 (exact evaluation on sampled inputs, no theorem): arma_estimate "
+                "(CORRELATION, arcovar_marple, ma embedded; the scipy-lstsq solver arcovar an ORACLE call = hidden parameters) and lpc (numpy.fft.ifft = the inverse DFT specification "
+                "through the same hidden twiddle parameter, tools.nextpow2 an IR primitive accepted only while its text is the expected one, the in-place resize of lpc's parameter "
+                "modelled inside the function only)")
 
 
 def loopir_tie(ctx, names):
@@ -3874,7 +4194,7 @@ def loopir_tie(ctx, names):
     t0 = time.time()
     info = ctx.extra.setdefault('loopir', {})
     wrong = translator_selftest()
-    info['translator_selftest'] = {'edits_that_must_be_rejected': len(SELFTEST_BAD) + len(SELFTEST2_BAD) + len(SELFTEST3_BAD) + len(SELFTEST4_BAD), 'wrongly_accepted': wrong}
+    info['translator_selftest'] = {'edits_that_must_be_rejected': len(SELFTEST_BAD) + len(SELFTEST2_BAD) + len(SELFTEST3_BAD) + len(SELFTEST4_BAD) + len(SELFTEST5_BAD) + len(SELFTEST6_BAD), 'wrongly_accepted': wrong}
     if wrong:
         ctx.broken.append({'theorem': 'loopir: translator self-test (fail-closed behaviour)', 'where': '_loopir.py', 'log': '; '.join(wrong)})
     progs = {}
@@ -3996,10 +4316,10 @@ def loopir_tie(ctx, names):
 
     def one(job):
         nm, c = job
-        bad = ctx.coq_cases('loopir_%s' % nm, pre, c.exact, shard=ctx.q(24, 100), descr='IR program of %s (regenerated from the source) vs the hand-written model: exact equality at QcC' % nm)
-        bad2 = ctx.coq_cases('loopir_%s_impl' % nm, pre, c.impl, descr='IR program of %s run at QcC vs the implementation (float tolerance): sanity of the translation' % nm)
+        bad = ctx.coq_cases('loopir_%s' % nm, pre, c.exact, shard=ctx.q(*EXACT_SHARD.get(nm, (24, 100))), descr='IR program of %s (regenerated from the source) vs the hand-written model: exact equality at QcC' % nm)
+        bad2 = ctx.coq_cases('loopir_%s_impl' % nm, pre, c.impl, shard=(EXACT_SHARD[nm][0] if nm in EXACT_SHARD else 250), descr='IR program of %s run at QcC vs the implementation (float tolerance): sanity of the translation' % nm)
         bad3 = ctx.coq_cases('loopir_%s_ls' % nm, pre, c.spec, shard=ctx.q(12, 45), descr=c.spec_descr) if c.spec else []
-        bad4 = ctx.coq_cases('loopir_%s_float' % nm, _vec.PRE_FLT + defs + _vec.PRE_FLT_TAIL, c.flt, shard=ctx.q(20, 60),
+        bad4 = ctx.coq_cases('loopir_%s_float' % nm, _vec.PRE_FLT + ''.join('Require Import %s.\n' % m for m in extra) + defs + _vec.PRE_FLT_TAIL, c.flt, shard=ctx.q(20, 60),
                              descr='IR program of %s run at binary64 (twiddle table from the harness) vs the hand-written model (bit for bit where the model performs the same '
                                    'operations) and vs the implementation (tolerance of the existing correspondence)' % nm) if c.flt else []
         return nm, c, bad, bad2, bad3, bad4
